@@ -33,20 +33,24 @@ def marker_sites(fx, variant):
     return out
 
 
+VIA_HELPERS = set()  # crate-local helpers through which a good marker site hands its marker to the forcing closure
+
+
 def check_marker_flow(ctx, fx, rule, variant, floor):
     sites = marker_sites(fx, variant)
     ctx.floor(rule, "Payload::%s construction sites" % variant, len(sites), floor)
     good_fns = set()
     for f, b, bi, si, st in sites:
         lhs = st["p"]
-        sk = sinks(b, lhs[0])
+        sk = graph.value_sinks(fx, b, lhs[0])
         calls = [s for s in sk if s["k"] == "call"]
         bad = [s for s in sk if s["k"] in ("agg", "store", "ret", "yield")]
         inst = "%s:%s" % (variant, f["def"])
         ok = len(calls) == 1 and calls[0]["t"].get("trait") == FORCE_TRAIT and calls[0]["idx"] == 1 and not bad
         if ok:
-            ctx.ok(rule, inst, st.get("l"), {"flows_to": calls[0]["t"]["callee"], "self_ty": calls[0]["t"].get("self_ty")})
+            ctx.ok(rule, inst, st.get("l"), {"flows_to": calls[0]["t"]["callee"], "self_ty": calls[0]["t"].get("self_ty"), "via": calls[0].get("via")})
             good_fns.add(f["def"])
+            VIA_HELPERS.update(calls[0].get("via") or [])
         else:
             where = [(s["t"].get("callee"), s["idx"]) for s in calls] + [s["k"] for s in bad]
             ctx.viol(rule, inst, "the %s marker must be handed to the forcing submit closure (ForceTxFn::send) and nowhere else; it flows to %s" % (variant, where), fn=f["def"], site=st.get("l"))
@@ -194,6 +198,8 @@ def run(ctx):
                 c = t.get("resolved") or t.get("callee")
                 if t.get("trait") == FORCE_TRAIT and f["def"] in stop_fns:
                     hit = (f["def"], t["l"], "ForceTxFn::send(Payload::Stop)")
+                elif (c in VIA_HELPERS or t.get("callee") in VIA_HELPERS) and f["def"] in stop_fns:
+                    hit = (f["def"], t["l"], "hands Payload::Stop to the forcing closure through " + c)
                 elif c in stop_fns or (t.get("callee") in stop_fns):
                     hit = (f["def"], t["l"], "calls " + c)
                 elif c in STOP_ENTRIES and c != e:
@@ -247,7 +253,7 @@ def run(ctx):
         if who and all(w in loop_defs or w in callers for w in who):
             helpers.add(c)
     callers = [c for c in callers if c not in helpers]
-    ctx.require(set(callers) <= set(loop_defs) and callers, "R04.3", "notify-callers", "StopNotifier::notify is called outside the event loops: %s" % [c for c in callers if c not in loop_defs], site=nf and nf["loc"], detail=callers)
+    ctx.require(set(callers) <= set(loop_defs) and (callers or helpers), "R04.3", "notify-callers", "StopNotifier::notify is called outside the event loops: %s" % [c for c in callers if c not in loop_defs], site=nf and nf["loc"], detail=callers)
     check_awaiters(ctx, fx)
     return core.finish(ctx)
 
@@ -289,6 +295,54 @@ class StopThenAwait(nfa.Spec):
         return st
 
 
+class _PollForward(nfa.Spec):
+    init = ("s0",)
+
+    def step(self, st, label):
+        ev = label.split("@")[0]
+        ph = st[0]
+        if ev == "call:poll":
+            return ("polled",)
+        if ph == "polled" and ev in ("sw:Poll::Ready", "bool:is_ready=1", "bool:is_pending=0"):
+            return ("ready",)
+        if ph == "polled" and ev in ("sw:Poll::Pending", "bool:is_ready=0", "bool:is_pending=1"):
+            return ("pending",)
+        if ev == "retval:Ready" and ph != "ready":
+            return nfa.Err("a completion is reported although the termination future was not seen Ready (phase %s)" % ph)
+        if ev == "retval:Pending" and ph != "pending":
+            return nfa.Err("Pending is reported although the termination future was not seen Pending (phase %s): the awaiter would hang" % ph)
+        if ev in ("retval:Ready", "retval:Pending"):
+            return ("answered",)
+        if ev == "ret" and ph != "answered":
+            return nfa.Err("returns without answering the poll (phase %s)" % ph)
+        return st
+
+
+def _poll_forwarded_by_match(ctx, fx, b, bi, t):
+    A = nfa.Alphabet(calls=[("poll", lambda x, _t=t: x is _t), ("is_ready", nfa.callee_ends("poll::{impl#0}::is_ready")), ("is_pending", nfa.callee_ends("poll::{impl#0}::is_pending"))],
+                     adts={"core::task::poll::Poll": "Poll"}, bools={"is_ready", "is_pending"}, retval=True)
+    n = nfa.build(b, A)
+    viols, ps = nfa.check(n, _PollForward())
+    ctx.count_nfa(n.stats(), ps)
+    if viols:
+        return False
+    # the Ready payload is the polled result (its error converted at most)
+    readys = [st for _bi, _si, st in agg_sites(b, adt="core::task::poll::Poll", variant="Ready") if st["p"] == [0]]
+    if not readys:
+        return False
+    for st in readys:
+        for o in b.origins(st["r"]["ops"][0], through_calls=False):
+            src = o
+            if o.kind == "call" and b.call_at(o).get("callee") in ("core::result::{impl#0}::map_err",):
+                inner = b.origins(b.call_at(o)["args"][0], through_calls=False)
+                if not inner or not all(x.kind in ("call", "await") and x.site[:1] == (bi,) for x in inner):
+                    return False
+                continue
+            if not (src.kind in ("call", "await") and src.site[:1] == (bi,)):
+                return False
+    return True
+
+
 def check_awaiters(ctx, fx):
     # a handle awaited to completion stays a valid awaiter / can be cloned for later awaiters (shared with C14)
     from props import c14
@@ -324,7 +378,11 @@ def check_awaiters(ctx, fx):
                                         ct = cb.blocks[r.site[0]]["t"]
                                         through = through and all(x.kind == "arg" for x in _roots(cb, ct["args"][0]))
                                 ok = ok and through and bool(rr)
-                det = {"polls": t["callee"], "on": t["argtys"][0][:80]}
+                if not maps and not any(s["k"] == "ret" for s in sk):
+                    # explicit form `match poll { Ready(r) => { ..; Ready(r.map_err(..)) } Pending => Pending }`: each
+                    # outcome is answered by the same outcome, carrying the polled result
+                    ok = _poll_forwarded_by_match(ctx, fx, b, bi, t)
+        det = {"polls": t["callee"], "on": t["argtys"][0][:80]}
         ctx.require(ok and len(polls) == 1, "R04.4", "Addr::poll", "awaiting an address must return the poll of its shared termination future", fn=pf["def"], site=pf["loc"], detail=det)
     A = nfa.Alphabet(
         calls=[("stop", nfa.callee_is("addr::Addr::<A>::stop")), ("join", nfa.callee_is("addr::OwningAddr::<A>::join", "actor::spawner::actor_handle::ActorHandle::<A>::join"))],
